@@ -37,3 +37,15 @@ Definition run_show
   let '(evs, s) := feed_all (list bytes) (list (option bytes)) dec_t (verify_t vt) decomp_t bs ms
                             (cinit (list bytes) (list (option bytes)) dt zt) chunks in
   String.concat " " (frames ++ map show_ev evs).
+
+(** re-key cases: one history per side; prints what each side put on the wire (application messages, in order) *)
+Definition show_msg (m : N * bytes) : string := show_N (fst m) ++ ":" ++ show_hex (snd m).
+Definition show_side (ops : list kop) : string :=
+  let s := krun ops in
+  String.concat "," (map show_msg (kwire s)) ++ "|q=" ++ String.concat "," (map show_msg (kq s)).
+Definition run_rekey (c : list kop * list kop) : string :=
+  "c>" ++ show_side (fst c) ++ " s>" ++ show_side (snd c).
+
+Definition run_any (c : ((N * N) * (list bytes * list (N * bytes * bytes) * list (option bytes)) * list (bytes * bytes) * list bytes)
+                        + (list kop * list kop)) : string :=
+  match c with inl a => run_show a | inr b => run_rekey b end.
